@@ -1171,11 +1171,16 @@ func c04CheckConst(c c04ConstCase) h.Result {
 			r.Fail("field.SQRT_M1:not-reduced", "[%s] limb %d of %v", c04Backend, i, c04Limbs(&SQRT_M1))
 		}
 	case "Pow2k(0)":
-		// "given k > 0": the documented reaction to k = 0 is a panic (never a hang in the assembly loop).
-		one := One
-		p, _ := h.Catch(func() { e.Pow2k(&one, 0) })
-		if !p {
-			r.Fail("field.Pow2k:k=0-accepted", "[%s]", c04Backend)
+		// "given k > 0": k = 0 is outside the documented domain.  The code panics;
+		// returning t^(2^0) = t would be just as right.  What must not happen is a
+		// wrong value or a hang in the squaring loop (k-1 wrapping around; the
+		// wrapper's CPU-time guard turns a hang into a violation).
+		two := Two
+		p, _ := h.Catch(func() { e.Pow2k(&two, 0) })
+		if p {
+			r.Class("Pow2k(0):panics")
+		} else if ref.FMod(c04Val(&e)).Cmp(big.NewInt(2)) != 0 {
+			r.Fail("field.Pow2k:k=0-wrong-value", "[%s] got %v", c04Backend, c04Limbs(&e))
 		}
 	default:
 		panic("c04: malformed case")
